@@ -31,6 +31,33 @@ def _flatten_add(t):
     return [t]
 
 
+STRUCT_CODES = {"b": (1, True), "B": (1, False), "h": (2, True), "H": (2, False), "i": (4, True), "I": (4, False), "l": (4, True), "L": (4, False),
+                "q": (8, True), "Q": (8, False)}
+
+
+def _struct_fmt(fmt):
+    """'>q' -> (width, byte order, signed) for single-integer formats, else None"""
+    if not isinstance(fmt, str) or not fmt:
+        return None
+    order = {">": "big", "!": "big", "<": "little"}.get(fmt[0])
+    code = fmt[1:] if order else fmt
+    if order is None or code not in STRUCT_CODES:
+        return None
+    w, sg = STRUCT_CODES[code]
+    return w, order, sg
+
+
+def _struct_call(t, meth):
+    """t = struct.Struct(fmt).<meth>(args...) or struct.<meth>(fmt, args...) -> (fmt, remaining args) or None"""
+    if not isinstance(t, App):
+        return None
+    if isinstance(t.fn, Attr) and t.fn.attr == meth and isinstance(t.fn.base, App) and t.fn.base.fname == "struct.Struct" and t.fn.base.args:
+        return t.fn.base.args[0], list(t.args)
+    if t.fname == f"struct.{meth}" and t.args:
+        return t.args[0], list(t.args[1:])
+    return None
+
+
 def _ser_layout(t):
     """symbolic bytes expression -> [('int', field, width, order) | ('str', field)] or None"""
     out = []
@@ -39,16 +66,18 @@ def _ser_layout(t):
             continue
         if isinstance(piece, App) and piece.fname.endswith(".to_bytes") and isinstance(piece.fn, Attr):
             recv = vkey(piece.fn.base)
-            if len(piece.args) == 2 and isinstance(piece.args[0], int) and not piece.kwargs:
-                out.append(("int", recv.removeprefix("self."), piece.args[0], piece.args[1]))
-                continue
             kw = dict(piece.kwargs)
             w = piece.args[0] if piece.args else kw.get("length")
             o = piece.args[1] if len(piece.args) > 1 else kw.get("byteorder", "big")
             if isinstance(w, int):
-                out.append(("int", recv.removeprefix("self."), w, o))
+                out.append(("int", recv.removeprefix("self."), w, o, bool(kw.get("signed", False))))
                 continue
             return None
+        sc = _struct_call(piece, "pack")
+        if sc is not None and len(sc[1]) == 1 and _struct_fmt(sc[0]):
+            w, o, sg = _struct_fmt(sc[0])
+            out.append(("int", vkey(sc[1][0]).removeprefix("self."), w, o, sg))
+            continue
         if isinstance(piece, App) and piece.fname == f"{API}.ser_str" and len(piece.args) == 1:
             out.append(("str", vkey(piece.args[0]).removeprefix("self.")))
             continue
@@ -75,14 +104,22 @@ def _deser_field(v):
         s = v.args[0]
         if isinstance(s.index, slice) and s.index.start is None and isinstance(s.index.stop, int):
             order = v.args[1] if len(v.args) > 1 else dict(v.kwargs).get("byteorder", "big")
-            return ("int", s.index.stop, order, s.base)
+            return ("int", s.index.stop, order, s.base, bool(dict(v.kwargs).get("signed", False)))
         return None
+    if isinstance(v, Sub) and v.index == 0:
+        sc = _struct_call(v.base, "unpack")
+        if sc is not None and len(sc[1]) == 1 and _struct_fmt(sc[0]) and isinstance(sc[1][0], Sub):
+            w, o, sg = _struct_fmt(sc[0])
+            sl = sc[1][0]
+            if isinstance(sl.index, slice) and sl.index.start is None and sl.index.stop == w:
+                return ("int", w, o, sl.base, sg)
+            return None
     if isinstance(v, Sub) and v.index == 0 and isinstance(v.base, App) and v.base.fname == f"{API}.deser_str":
         return ("str", None, None, v.base.args[0])
     if isinstance(v, App) and len(v.args) == 1 and not v.kwargs and v.fname.startswith(API):  # Enum(int)
         inner = _deser_field(v.args[0])
         if inner and inner[0] == "int":
-            return ("enumint", inner[1], inner[2], inner[3])
+            return ("enumint", inner[1], inner[2], inner[3], inner[4])
     return None
 
 
@@ -146,7 +183,7 @@ def r1_layouts(ctx):
         n += 1
         norm = lambda f: f.removesuffix(".value")
         ser_seq = [(p[0], norm(p[1])) + tuple(p[2:]) for p in lay]
-        des_seq = [((("int",) if f[0] in ("int", "enumint") else ("str",)) + (k,) + ((f[1], f[2]) if f[0] != "str" else ())) for _, k, f, _ in dl]
+        des_seq = [((("int",) if f[0] in ("int", "enumint") else ("str",)) + (k,) + ((f[1], f[2], f[4]) if f[0] != "str" else ())) for _, k, f, _ in dl]
         if ser_seq != des_seq:
             ctx.violation("C17.R1", des.qual, loc(des), f"{ci.name} layout",
                           f"{ci.name}: ser() writes {ser_seq} but deser() reads {des_seq} — field order / width / byte order / field name differ, "
@@ -168,11 +205,15 @@ def r1_layouts(ctx):
         for p in lay:
             if p[0] == "int":
                 widths[f"{ci.name}.{norm(p[1])}"] = p[2]
+        if not hasattr(ctx, "_c17_lays"):
+            ctx._c17_lays = []
+        ctx._c17_lays.append((ci, lay))
         missing = set(ci.fields) - set(fields) if ci.fields else set()
         if missing:
             ctx.violation("C17.R1", des.qual, loc(des), f"{ci.name} fields", f"{ci.name}.deser does not set field(s) {sorted(missing)}")
     ctx.floor("C17.R1.classes", n, 13)
     ctx._c17_widths = widths
+    ctx._c17_signed = {f"{ci.name}.{norm(p[1])}": p[4] for ci, lay_ in getattr(ctx, "_c17_lays", []) for p in lay_ if p[0] == "int"}
     # the string primitive: strict codec (structural) + mirror of layout on representative strings (the layout is data independent)
     s = repo.func(f"{API}.ser_str")
     d = repo.func(f"{API}.deser_str")
@@ -540,3 +581,56 @@ def r7_result_codec(ctx):
 
 
 RULES.append(r7_result_codec)
+
+
+def r8_concrete_roundtrip(ctx):
+    """C17.R8: deser(ser(m)) == m on representative messages of every shm message class: strings '' / '0a1b2c3d' (a reader id with a
+    leading zero) / a dotted key, integers 0 / 5 / 2**40+5, every enum member — evaluated by the interpreter on the source of ser and
+    deser (int.to_bytes / from_bytes / encode / str(bytes, codec) computed exactly)."""
+    repo = ctx.repo
+    from ..terms import ClassRef, EnumVal
+    ip = Interp(repo, inline=lambda f: f.module.name == API)
+    n = 0
+    for ci in _classes(repo):
+        ser = repo.find_method(ci.qual, "ser")
+        des = repo.find_method(ci.qual, "deser")
+        anns = {k: (ast.unparse(v) if v is not None else "") for k, v in ci.fields.items()}
+        variants = []
+        for strs, ints in ((["", "", ""], [0, 0]), (["0a1b2c3d", "key.with.dots", "x"], [5, 2 ** 40 + 5]), (["00000000", "a", "0"], [2 ** 40 + 5, 1])):
+            si, ii = iter(strs * 3), iter(ints * 3)
+            inst = {}
+            okv = True
+            for k, a in anns.items():
+                if a == "str":
+                    inst[k] = next(si)
+                elif a == "int":
+                    inst[k] = next(ii)
+                else:
+                    q = repo.resolve_expr(ci.module, ci.fields[k]) if ci.fields[k] is not None else None
+                    if q and q in repo.classes and repo.is_enum(q):
+                        mem = repo.enum_members(q)
+                        inst[k] = EnumVal(q, sorted(mem)[len(variants) % len(mem)])
+                    else:
+                        okv = False
+            if okv:
+                variants.append(inst)
+        for inst in variants:
+            me = Obj(ci.qual, dict(inst), name="MSG")
+            sp = ip.explore(ser, args={"self": me})
+            wire = sp[0].exit[1] if len(sp) == 1 and sp[0].exit[0] == "return" else None
+            if not isinstance(wire, (bytes, bytearray)):
+                continue  # not evaluable on concrete values (enum .value etc.): the symbolic layout rule decides this class
+            dp = ip.explore(des, args={"cls": ClassRef(ci.qual), "data": bytes(wire)})
+            ctx.evals(2)
+            got = dp[0].exit[1] if len(dp) == 1 and dp[0].exit[0] == "return" else None
+            gf = got.fields if isinstance(got, Obj) else None
+            n += 1
+            if gf is None or {k: vkey(v) for k, v in gf.items()} != {k: vkey(v) for k, v in inst.items()}:
+                ctx.violation("C17.R8", des.qual, loc(des), f"{ci.name} round trip", f"{ci.name}{inst} -> ser -> deser gives {vkey(gf) if gf is not None else [(p.exit[0], vkey(p.exit[1])[:60]) for p in dp]}: "
+                              f"decode(encode(m)) != m")
+            else:
+                ctx.ok("C17.R8", loc(des), f"{ci.name}: deser(ser(m)) == m for {vkey(inst)[:70]}")
+    ctx.floor("C17.R8.roundtrips", n, 12)
+
+
+RULES.append(r8_concrete_roundtrip)
